@@ -43,3 +43,8 @@ def collect(P):
                 r'"default",\s*TextAnalyzer::builder\(SimpleTokenizer::default\(\)\)\s*\.filter\(RemoveLongFilter::limit\((\d+)\)\)')
     P.flag("QG_REMOVE_LONG_KEEPS_STRICTLY_SHORTER", "src/tokenizer/remove_long.rs",
            r"fn predicate\(&self, token: &Token\) -> bool \{\s*token\.text\.len\(\) < self\.token_length_limit\s*\}")
+    # shape of rewrite_ast_clause: 1 = only a negation is hoisted out of a single-child group with its occur
+    # (a single Should / Must child keeps the default occur of its position), 0 = the child is hoisted with any occur
+    P.flag("QG_REWRITE_HOISTS_ONLY_NEGATION", g,
+           r"fn rewrite_ast_clause\(input: &mut \(Option<Occur>, UserInputAst\)\) \{" + T +
+           r"Some\(Occur::MustNot\) => \(occur, ast\)," + T + r"_ => \(None, ast\),")
